@@ -3,6 +3,7 @@ package props
 import (
 	"fmt"
 	"go/ast"
+	"os"
 	"strings"
 
 	"golang.org/x/tools/go/ssa"
@@ -569,6 +570,72 @@ func blockedAddresses(c *Ctx, must []string) {
 			}
 			return false
 		}, 0)
+		// ... or where a constant table of per-account policies, looked up by the key, says so (a package-level map literal
+		// that nothing writes; the zero value for an account it does not list): judged account by account — the edges on
+		// which a test of the table holds that is false for the account are not taken for it
+		tableTest := func(p ir.Pred) (table map[string]string, want, op string, ok bool) {
+			op, x, y, okc := p.Cmp()
+			if !okc || op != "==" && op != "!=" {
+				return nil, "", "", false
+			}
+			for _, pr := range [][2]*ir.Expr{{x, y}, {y, x}} {
+				lk, kc := pr[0], pr[1]
+				if lk.Op == "res" && len(lk.Args) == 1 {
+					lk = lk.Args[0]
+				}
+				if lk.Op != "lookup" || len(lk.Args) != 2 || kc.Op != "const" || lk.Args[0].Op != "global" {
+					continue
+				}
+				g, _ := lk.Args[0].V.(*ssa.Global)
+				if g == nil || !globalNeverWritten(c, g) {
+					continue
+				}
+				pk := w.Pkg(ir.RelPkg(g.Pkg.Pkg.Path()))
+				if pk == nil {
+					continue
+				}
+				init := w.VarInit(pk, g.Name())
+				if init == nil {
+					continue
+				}
+				t, err := ir.EvalConstMap(pk, init)
+				if err != nil {
+					continue
+				}
+				if wv := constExact(kc); wv != "" {
+					return t, wv, op, true
+				}
+			}
+			return nil, "", "", false
+		}
+		usesTable := len(w.EstablishedEdges(f, func(p ir.Pred) bool { _, _, _, ok := tableTest(p); return ok }, 0)) > 0
+		if usesTable {
+			isUpd := func(in ssa.Instruction) bool { _, ok := in.(*ssa.MapUpdate); return ok }
+			if mp, _, err := MaccPerms(c); err == nil {
+				for acct := range mp {
+					acct := acct
+					notTaken := w.EstablishedEdges(f, func(p ir.Pred) bool {
+						table, want, op, ok := tableTest(p)
+						if !ok {
+							return false
+						}
+						val, listed := table[acct]
+						if !listed {
+							val = "0"
+						}
+						return (val == want) != (op == "==")
+					}, 0)
+					if len(ir.AfterReachesBackEdgeWithoutCut(f, next, isUpd, notTaken)) > 0 {
+						deleted[acct] = true
+					}
+				}
+			} else {
+				deleted["?"] = true
+			}
+			for k := range w.EstablishedEdges(f, func(p ir.Pred) bool { _, _, _, ok := tableTest(p); return ok }, 0) {
+				skip[k] = true
+			}
+		}
 		isUpd := func(in ssa.Instruction) bool { _, ok := in.(*ssa.MapUpdate); return ok }
 		missed := ir.AfterReachesBackEdgeWithoutCut(f, next, isUpd, skip)
 		r.Require(len(missed) == 0, "A5.blocked-addresses", "every-key-inserted", pos(c, next), "every module account of maccPerms is inserted into the blocked list, except those compared with a constant module address", "an iteration can finish without inserting its key")
@@ -630,6 +697,9 @@ func genesisBalance(c *Ctx, module string) {
 					return false
 				}
 				a, b := w.Expand(p.E.Args[0], 3), w.Expand(p.E.Args[1], 3)
+				if os.Getenv("MCDEBUG") == "gb" {
+					fmt.Fprintln(os.Stderr, "genesis-balance IsEqual:", a.String(), "<>", b.String())
+				}
 				isBal := func(x *ir.Expr) bool {
 					return x.Op == "call" && strings.HasSuffix(x.Name, ".GetAllBalances") && x.Any(func(z *ir.Expr) bool {
 						return z.Op == "call" && strings.HasSuffix(z.Name, ".GetModuleAccount") || z.Op == "const" && z.Name == `"`+module+`"`
@@ -637,7 +707,7 @@ func genesisBalance(c *Ctx, module string) {
 				}
 				isHold := func(x *ir.Expr) bool {
 					if module == "enterprise" {
-						return x.Op == "call" && strings.HasSuffix(x.Name, "types.Coins).Add") && x.Any(func(z *ir.Expr) bool { return z.Op == "field" && z.Name == "TotalLocked" }) &&
+						return x.Op == "call" && (strings.HasSuffix(x.Name, "types.Coins).Add") || strings.HasSuffix(x.Name, "types.NewCoins")) && x.Any(func(z *ir.Expr) bool { return z.Op == "field" && z.Name == "TotalLocked" }) &&
 							!x.Any(func(z *ir.Expr) bool { return z.Op == "call" && strings.HasSuffix(z.Name, ".GetAllBalances") })
 					}
 					// stream: Σ of imported deposits accumulated in a loop
@@ -770,4 +840,43 @@ func copiesPermsMap(c *Ctx, v ssa.Value) bool {
 		}
 	}
 	return false
+}
+
+// globalNeverWritten: the package variable is assigned only by its initialiser (no store, map update or delete through it
+// outside the package init).
+func globalNeverWritten(c *Ctx, g *ssa.Global) bool {
+	for _, f := range c.W.Funcs {
+		if f.Pkg != g.Pkg || f.Name() == "init" {
+			continue
+		}
+		for _, b := range f.Blocks {
+			for _, in := range b.Instrs {
+				switch x := in.(type) {
+				case *ssa.Store:
+					if x.Addr == ssa.Value(g) {
+						return false
+					}
+				case *ssa.MapUpdate:
+					if ld, ok := x.Map.(*ssa.UnOp); ok && ld.X == ssa.Value(g) {
+						return false
+					}
+				case *ssa.Call:
+					if bi, ok := x.Common().Value.(*ssa.Builtin); ok && bi.Name() == "delete" && len(x.Common().Args) > 0 {
+						if ld, ok := x.Common().Args[0].(*ssa.UnOp); ok && ld.X == ssa.Value(g) {
+							return false
+						}
+					}
+				}
+			}
+		}
+	}
+	return true
+}
+
+// constExact: the exact value of a constant expression node (resolved through the constant's SSA value).
+func constExact(e *ir.Expr) string {
+	if cst, ok := e.V.(*ssa.Const); ok && cst.Value != nil {
+		return cst.Value.ExactString()
+	}
+	return ""
 }
